@@ -219,7 +219,7 @@ class Script:
         self.uncounted = 0       # write statements not yet followed by commit / conditional_commit
         self.many_rows = None    # python name of the executemany argument
         self.upsert_src = None   # python name of the list the upsert loop runs over
-        self.before_bulk = None  # items before the executemany (for InsertManyRejected)
+        self.before_bulk = None  # items before the executemany (for InsertManyFailed)
         self.guard = None        # (param, items) for get_events' early return
 
     # -- SQL text
@@ -466,6 +466,23 @@ def tr_scripts(repo):
         raise Fail("__init__ no longer ends by resetting last_commit / num_uncommitted_statements")
     if not any(ast.unparse(s) == "self.commit()" for s in init.body):
         raise Fail("__init__ no longer commits the schema")
+
+    # anything in __init__ that hands the store to other code (check_for_migration(self) runs
+    # insert_many on it) must be followed at once by self.commit(): the constructor resets
+    # the counter, so writes left pending there would be at risk and uncounted
+    def blocks(body):
+        yield body
+        for st in body:
+            for sub in (getattr(st, "body", None), getattr(st, "orelse", None)):
+                if isinstance(sub, list) and sub and isinstance(sub[0], ast.stmt):
+                    yield from blocks(sub)
+    for body in blocks(init.body):
+        for i, st in enumerate(body):
+            escapes = [c for c in ast.walk(st) if isinstance(c, ast.Call)
+                       and any(isinstance(a, ast.Name) and a.id == "self" for a in c.args)] \
+                if not isinstance(st, (ast.If, ast.For, ast.While, ast.With, ast.Try)) else []
+            if escapes and not (i + 1 < len(body) and ast.unparse(body[i + 1]) == "self.commit()"):
+                raise Fail(f"__init__: {ast.unparse(escapes[0])} is not followed by self.commit()")
     out = []
     scripts = {}
     order = ["get_metadata", "replace"] + [m for _, m, _ in OPS if m not in ("get_metadata", "replace")]
@@ -476,8 +493,11 @@ def tr_scripts(repo):
     im = scripts["insert_many"]
     if im.before_bulk is None:
         raise Fail("insert_many: no bulk statement found")
-    ups_params = "".join(f" ({n} : {t})" for n, t in im.params if n != "rows")
-    out.append(f"Definition gen_script_insert_many_upserts{ups_params} : list micro :=\n  {im.text(im.before_bulk)}.\n")
+    # the bulk statement raises part-way: the script stops after the rows that went through
+    if [n for n, _ in im.params] != ["ups", "rows"]:
+        raise Fail("insert_many: unexpected parameters")
+    out.append("Definition gen_script_insert_many_failed (ups : list Z) (rows : list Z) : list micro :=\n  "
+               + " ++ ".join(im.before_bulk + ["[ExecMany rows]", "[]"]) + ".\n")
     arms = []
     for ctor, m, types in OPS:
         ps = scripts[m].params
@@ -486,7 +506,7 @@ def tr_scripts(repo):
         names = " ".join(n for n, _ in ps)
         arms.append(f"  | {ctor} {names}".rstrip() + f" => gen_script_{m} {names}".rstrip())
     arms.append("  | Rejected => []")
-    arms.append("  | InsertManyRejected ups => gen_script_insert_many_upserts ups")
+    arms.append("  | InsertManyFailed ups done => gen_script_insert_many_failed ups done")
     out.append("Definition gen_expand (o : op) : list micro :=\n  match o with\n" + "\n".join(arms) + "\n  end.\n")
     out.append("Definition gen_init_n : Z := 0.\n")
     return "\n".join(out)
